@@ -140,8 +140,6 @@ class Fxp():
         # value
         self.vdtype = None # value(s) dtype to return as default
         self.val = None
-        self.real = None
-        self.imag = None
         raw = None
         # scaling (linear)
         self.scale = None
@@ -176,8 +174,6 @@ class Fxp():
             if isinstance(like, Fxp):
                 self.__dict__ = copy.deepcopy(like.__dict__)
                 self.val = None
-                self.real = None
-                self.imag = None
                 _initialized = True
 
         elif self.template is not None:
@@ -185,8 +181,6 @@ class Fxp():
             if isinstance(self.template, Fxp):
                 self.__dict__ = copy.deepcopy(self.template.__dict__)
                 self.val = None
-                self.real = None
-                self.imag = None
                 _initialized = True
 
         #status (overwrite)
@@ -253,6 +247,20 @@ class Fxp():
     @property
     def dtype(self):
         return self._dtype
+
+    # value views, computed from the stored codes on access (a cached copy goes stale when the codes are written through a view,
+    # sorted in place, shifted, ...)
+    @property
+    def real(self):
+        if self.val is None:
+            return None
+        return self.astype(complex).real if self.vdtype == complex else self.get_val()
+
+    @property
+    def imag(self):
+        if self.val is None:
+            return None
+        return self.astype(complex).imag if self.vdtype == complex else 0
 
     # overflow (mirror of config for compatibility)
     @property
@@ -1030,12 +1038,7 @@ class Fxp():
         # written into a complex array): the value views must not drop the imaginary parts
         if np.iscomplexobj(self.val):
             self.vdtype = complex
-        if self.vdtype == complex:
-            self.real = self.astype(complex).real
-            self.imag = self.astype(complex).imag
-        else:
-            self.real = self.get_val()
-            self.imag = 0
+        # (the value views `real` / `imag` are computed on access: see the properties)
 
         # update dtype
         self._update_dtype()
